@@ -1,9 +1,10 @@
 """C09 -- each JFA training phase is exact EM: its marginal likelihood never decreases.
 
-Tier A: M-step formulas (per-component solves, diagonal ratio), the reduction of per-class
-accumulators, the hand-over of point estimates between phases and the copy-back of the
-updated subspaces on the Dask path (data-flow proof with recording contracts).  Tier B
-(bounded, objrun): E-step posteriors and accumulators of the three phases, ascent."""
+Tier A: the per-class E-steps of the three phases and the finalisers (exact posterior moments),
+M-step formulas (per-component solves, diagonal ratio), the reduction of per-class accumulators,
+the hand-over of point estimates between phases and the copy-back of the updated subspaces on
+the Dask path (data-flow proof with recording contracts).  Tier B (bounded, objrun): the list
+path with several classes per call, numeric ascent."""
 from vt import terms as T
 from vt.terms import Poly, P, ZERO, ONE, Sum
 from vt import arr as A
@@ -20,7 +21,10 @@ from props.C11 import Rec
 
 FUNCTIONS = ["factor_analysis.FactorAnalysisBase.update_U", "factor_analysis.JFAMachine.m_step_v / m_step_u / m_step_d", "factor_analysis.reduce_iadd",
              "factor_analysis.JFAMachine.fit (phase sequencing, hand-over, copy-back; list and Dask-nested input)",
-             "(objrun, bounded) e_step_v/u/d, compute_accumulators_V/U/D, update_y/compute_latent_x/update_z, finalize_v/u"]
+             "factor_analysis.JFAMachine.e_step_v / e_step_u / e_step_d (one class per call, K classes), update_y, compute_latent_x, update_z, "
+             "compute_accumulators_V/U/D, initialize_XYZ, _get_statistics_by_class_id, mult_along_axis, _latent_y_per_class, _compute_latent_x_per_class",
+             "factor_analysis.JFAMachine.finalize_v / finalize_u (per-class delayed lists)",
+             "(objrun, bounded) the same E-steps on the list path with several classes per call"]
 Q = "factor_analysis.FactorAnalysisBase."
 J = "factor_analysis.JFAMachine."
 
@@ -179,7 +183,236 @@ def handover(ctx):
                     "the subspace is taken from the M-step's returned value)")
 
 
-GROUPS = [guard(msteps), guard(reduce_iadd), guard(handover)]
+def entail(F):
+    """branch decisions of the interpreter by entailment from the facts and the current path (instead of forking)"""
+    from vt import smt
+
+    def feas(I_, cond):
+        Fx = F.extend(list(I_.assumed))
+        st, _ = smt.prove(cond, Fx, timeout_ms=3000)
+        if st == "proved":
+            return True
+        st, _ = smt.prove(T.c_not(cond), Fx, timeout_ms=3000)
+        if st == "proved":
+            return False
+        return None
+    return feas
+
+
+def esteps(ctx):
+    """Tier A: the E-step of each JFA phase, called as the Dask path calls it (and as the list path does for one class):
+    the H sessions of ONE class kk of K, all labels equal to kk, the accumulated statistics of all K classes.
+    Every returned accumulator equals the posterior moments of that phase's latent variable given the handed-over point
+    estimates -- A1 = Σ N (Phi + E E'), A2 = Σ Fnorm E' -- for all C, D, ranks, session counts and class counts."""
+    out = []
+    leaf = {Q + "_compute_fn_y_i": FA.spec_fn_y_i, Q + "_compute_fn_z_i": FA.spec_fn_z_i, Q + "_compute_fn_x_ih": FA.spec_fn_x_ih,
+            Q + "_compute_id_plus_u_prod_ih": FA.spec_id_plus_u_prod_ih, Q + "_compute_id_plus_vprod_i": FA.spec_id_plus_vprod_i,
+            Q + "_compute_id_plus_d_prod_i": FA.spec_id_plus_d_prod_i}
+    Kc, kk = T.sym("Kc", "int"), T.sym("kk", "int")
+    assume = [T.cmp_cond("<=", ZERO, kk), T.cmp_cond("<", kk, Kc)]
+    zeros = lambda *shape: Arr(tuple(shape), lambda *idx: ZERO)
+
+    def row(a, k):
+        return Arr(a.shape[1:], lambda *idx: P(a.fn(k, *idx)))
+    FA.setup()
+    try:
+        F = FA.facts()
+        F.pos_syms |= {"H", "Kc"}
+        F.dims |= {"Kc"}
+        F.conds += assume
+
+        def common(I):
+            return dict(X=FA.sessions(I), y=SList(FA.Hh, lambda i: kk), n_samples_per_class=SList(Kc, lambda k: T.app("nspc", k, sort="int")))
+        # ---------------- V phase
+        I = new_interp(leaf)
+        I.feasible = entail(F)
+
+        def build_v(I=I):
+            kw = common(I)
+            kw.update(n_acc=input_arr("Nacc", (Kc, FA.Cc)), f_acc=input_arr("Facc", (Kc, FA.Cc, FA.Dd)))
+            return [FA.mk_fa(I)], kw
+
+        def spec_v(ctx_, self, X, y, n_samples_per_class, n_acc, f_acc):
+            n, f = row(n_acc, kk), row(f_acc, kk)
+            xs0, z0 = zeros(FA.RU, FA.Hh), zeros(FA.Cc * FA.Dd)
+            yh = FA.spec_block_y(self, X, xs0, z0, n, f)
+            Phi = FA.precision_inv(FA.RV, FA.prod_term(self.fields["_V"], self), n)
+            fn = FA.spec_fn_y_i(None, self, X, xs0, z0, n, f)
+            A1 = Arr((FA.Cc, FA.RV, FA.RV), lambda c, r, s: P(n.fn(c)) * (P(Phi.fn(r, s)) + P(yh.fn(r)) * P(yh.fn(s))))
+            A2 = Arr((FA.Cc * FA.Dd, FA.RV), lambda i, r: P(fn.fn(i)) * P(yh.fn(r)))
+            return (A1, A2)
+        cl = K.check_function(I, J + "e_step_v", build_v, spec_v, F, "C09.estep.V", state_names={0: "self"}, structural=False, assume=assume)
+        out += collapse([c for c in cl if ".def" not in c.name], "C09.estep.V",
+                        "V phase: A1_c = N_c (Phi_y + y y'), A2 = Fnorm_y y' with y the posterior mean of the class's speaker factor at x = 0, z = 0")
+        # ---------------- U phase
+        I = new_interp(leaf)
+        I.feasible = entail(F)
+
+        def build_u(I=I):
+            kw = common(I)
+            kw.update(latent_y=input_arr("ly", (Kc, FA.RV)))
+            return [FA.mk_fa(I)], kw
+
+        def spec_u(ctx_, self, X, y, n_samples_per_class, latent_y):
+            yk = row(latent_y, kk)
+            z0 = zeros(FA.Cc * FA.Dd)
+            xh = FA.spec_block_x(self, X, yk, z0)
+            UP = FA.prod_term(self.fields["_U"], self)
+
+            def a1(c, r, s):
+                def per(h):
+                    Phi = FA.precision_inv(FA.RU, UP, X.elem(h).fields["n"])
+                    return P(X.elem(h).fields["n"].fn(c)) * (P(Phi.fn(r, s)) + P(xh.fn(r, h)) * P(xh.fn(s, h)))
+                return Sum(FA.Hh, per, "h")
+
+            def a2(i, r):
+                def per(h):
+                    fn = FA.spec_fn_x_ih(None, self, X.elem(h), latent_z_i=z0, latent_y_i=yk)
+                    return P(fn.fn(i)) * P(xh.fn(r, h))
+                return Sum(FA.Hh, per, "h")
+            return (Arr((FA.Cc, FA.RU, FA.RU), a1), Arr((FA.Cc * FA.Dd, FA.RU), a2))
+        cl = K.check_function(I, J + "e_step_u", build_u, spec_u, F, "C09.estep.U", state_names={0: "self"}, structural=False, assume=assume)
+        out += collapse([c for c in cl if ".def" not in c.name], "C09.estep.U",
+                        "U phase: A1_c = Σ_h N_hc (Phi_h + x_h x_h'), A2 = Σ_h Fnorm_h x_h' with x_h the posterior mean of each session's channel "
+                        "factor given the handed-over speaker factors (z = 0)")
+        # ---------------- D phase
+        I = new_interp(leaf)
+        I.feasible = entail(F)
+
+        def build_d(I=I):
+            kw = common(I)
+            kw.update(latent_x=SList(Kc, lambda k: Arr((FA.RU, FA.Hh), lambda r, h: T.app("lx", k, r, h))),
+                      latent_y=input_arr("ly", (Kc, FA.RV)), n_acc=input_arr("Nacc", (Kc, FA.Cc)), f_acc=input_arr("Facc", (Kc, FA.Cc, FA.Dd)))
+            return [FA.mk_fa(I)], kw
+
+        def spec_d(ctx_, self, X, y, n_samples_per_class, latent_x, latent_y, n_acc, f_acc):
+            n, f = row(n_acc, kk), row(f_acc, kk)
+            yk, xs = row(latent_y, kk), latent_x.elem(kk)
+            zh = FA.spec_block_z(self, X, xs, yk, n, f)
+            fn = FA.spec_fn_z_i(None, self, X, xs, yk, n, f)
+            sg = FA.sigma_of(self)
+            Dv = self.fields["_D"]
+            var = lambda i: ONE / (ONE + P(Dv.fn(i)) ** 2 * P(n.fn(FA.cd(i)[0])) / sg(i))
+            A1 = Arr((FA.Cc * FA.Dd,), lambda i: (var(i) + P(zh.fn(i)) ** 2) * P(n.fn(FA.cd(i)[0])))
+            A2 = Arr((FA.Cc * FA.Dd,), lambda i: P(fn.fn(i)) * P(zh.fn(i)))
+            return (A1, A2)
+        cl = K.check_function(I, J + "e_step_d", build_d, spec_d, F, "C09.estep.D", state_names={0: "self"}, structural=False, assume=assume)
+        out += collapse([c for c in cl if ".def" not in c.name], "C09.estep.D",
+                        "D phase: A1 = N (var_z + z^2), A2 = Fnorm_z z with z the posterior mean of the class's residual offset given the handed-over x_h, y")
+        # ---------------- ISV training E-step (the same per-class form; used by the chunking / bag / determinism properties)
+        I = new_interp(leaf)
+        I.feasible = entail(F)
+        IS = "factor_analysis.ISVMachine."
+
+        def build_isv(I=I):
+            kw = common(I)
+            kw.update(n_acc=input_arr("Nacc", (Kc, FA.Cc)), f_acc=input_arr("Facc", (Kc, FA.Cc, FA.Dd)))
+            return [FA.mk_fa(I, "ISVMachine", with_v=False)], kw
+
+        def spec_isv(ctx_, self, X, y, n_samples_per_class, n_acc, f_acc):
+            n, f = row(n_acc, kk), row(f_acc, kk)
+            xh = FA.spec_block_x(self, X, None, zeros(FA.Cc * FA.Dd))
+            zh = FA.spec_block_z(self, X, xh, None, n, f)
+            UP = FA.prod_term(self.fields["_U"], self)
+
+            def a1(c, r, s):
+                def per(h):
+                    Phi = FA.precision_inv(FA.RU, UP, X.elem(h).fields["n"])
+                    return P(X.elem(h).fields["n"].fn(c)) * (P(Phi.fn(r, s)) + P(xh.fn(r, h)) * P(xh.fn(s, h)))
+                return Sum(FA.Hh, per, "h")
+
+            def a2(i, r):
+                def per(h):
+                    fn = FA.spec_fn_x_ih(None, self, X.elem(h), latent_z_i=zh, latent_y_i=None)
+                    return P(fn.fn(i)) * P(xh.fn(r, h))
+                return Sum(FA.Hh, per, "h")
+            return (Arr((FA.Cc, FA.RU, FA.RU), a1), Arr((FA.Cc * FA.Dd, FA.RU), a2))
+        cl = K.check_function(I, IS + "e_step", build_isv, spec_isv, F, "C09.isv.estep", state_names={0: "self"}, structural=False, assume=assume)
+        out += collapse([c for c in cl if ".def" not in c.name], "C09.isv.estep",
+                        "ISV training E-step (one class per call): x_h = posterior mean at z = 0, z = posterior mean given those x_h, "
+                        "A1_c = Σ_h N_hc (Phi_h + x_h x_h'), A2 = Σ_h (F_h - N_h (m + D z)) x_h'")
+    finally:
+        T.PRODUCTS[:] = []
+    return out
+
+
+def finalizers(ctx):
+    """Tier A: the point estimates handed from one phase to the next on the Dask path (one delayed list of sessions per
+    class, K classes, H_k sessions each): finalize_v returns, for EVERY class k, the posterior mean of its speaker factor at
+    x = 0, z = 0; finalize_u returns, for every class and every session, the posterior mean of the channel factor given the
+    class's speaker factor (z = 0).  With C09.handover (who receives what) and C09.estep.* this closes the E-side of each phase."""
+    out = []
+    leaf = {Q + "_compute_fn_y_i": FA.spec_fn_y_i, Q + "_compute_fn_z_i": FA.spec_fn_z_i, Q + "_compute_fn_x_ih": FA.spec_fn_x_ih,
+            Q + "_compute_id_plus_u_prod_ih": FA.spec_id_plus_u_prod_ih, Q + "_compute_id_plus_vprod_i": FA.spec_id_plus_vprod_i,
+            Q + "_compute_id_plus_d_prod_i": FA.spec_id_plus_d_prod_i}
+    Kc = T.sym("Kc", "int")
+    zeros = lambda *shape: Arr(tuple(shape), lambda *idx: ZERO)
+    row = lambda a, k: Arr(a.shape[1:], lambda *idx: P(a.fn(k, *idx)))
+    FA.setup()
+    try:
+        F = FA.facts()
+        F.pos_syms |= {"Kc"}
+        F.dims |= {"Kc"}
+        F.pos_apps.add("Hk")
+
+        def class_sessions_of(I):
+            ci = I.classes["GMMStats"]
+
+            def class_sessions(k):
+                def elem(h):
+                    s = Obj(ci)
+                    s.fields.update(n_gaussians=FA.Cc, n_features=FA.Dd, log_likelihood=T.app("kll", k, h), t=T.app("kT", k, h),
+                                    n=Arr((FA.Cc,), lambda c: T.app("kN", k, h, c)), sum_px=Arr((FA.Cc, FA.Dd), lambda c, d: T.app("kF", k, h, c, d)),
+                                    sum_pxx=Arr((FA.Cc, FA.Dd), lambda c, d: T.app("kS", k, h, c, d)))
+                    return s
+                return SList(T.app("Hk", k, sort="int"), elem)
+            return class_sessions
+
+        def nested(I):
+            cs = class_sessions_of(I)
+            return dict(X=SList(Kc, lambda k: Delayed(cs, (k,), {})),
+                        y=SList(Kc, lambda k: SList(T.app("Hk", k, sort="int"), lambda h: k)),
+                        n_samples_per_class=SList(Kc, lambda k: T.app("Hk", k, sort="int")))
+        # ---------------- finalize_v
+        I = new_interp(leaf)
+        I.feasible = entail(F)
+
+        def build_fv(I=I):
+            kw = nested(I)
+            kw.update(n_acc=input_arr("Nacc", (Kc, FA.Cc)), f_acc=input_arr("Facc", (Kc, FA.Cc, FA.Dd)))
+            return [FA.mk_fa(I)], kw
+
+        def spec_fv(ctx_, self, X, y, n_samples_per_class, n_acc, f_acc, I=I):
+            def per_class(k):
+                Xk = I.dask_compute(X.elem(k))
+                return FA.spec_block_y(self, Xk, zeros(FA.RU, Xk.slen()), zeros(FA.Cc * FA.Dd), row(n_acc, k), row(f_acc, k))
+            return SList(Kc, per_class)
+        cl = K.check_function(I, J + "finalize_v", build_fv, spec_fv, F, "C09.finalize.V", state_names={0: "self"}, structural=False)
+        out += collapse([c for c in cl if ".def" not in c.name], "C09.finalize.V",
+                        "finalize_v (per-class delayed lists): latent_y[k] = posterior mean of class k's speaker factor at x = 0, z = 0, for every class")
+        # ---------------- finalize_u
+        I = new_interp(leaf)
+        I.feasible = entail(F)
+
+        def build_fu(I=I):
+            kw = nested(I)
+            kw.update(latent_y=SList(Kc, lambda k: Arr((FA.RV,), lambda r: T.app("ly", k, r))))
+            return [FA.mk_fa(I)], kw
+
+        def spec_fu(ctx_, self, X, y, n_samples_per_class, latent_y, I=I):
+            def per_class(k):
+                Xk = I.dask_compute(X.elem(k))
+                return FA.spec_block_x(self, Xk, latent_y.elem(k), zeros(FA.Cc * FA.Dd))
+            return SList(Kc, per_class)
+        cl = K.check_function(I, J + "finalize_u", build_fu, spec_fu, F, "C09.finalize.U", state_names={0: "self"}, structural=False)
+        out += collapse([c for c in cl if ".def" not in c.name], "C09.finalize.U",
+                        "finalize_u (per-class delayed lists): latent_x[k][:, h] = posterior mean of session h's channel factor given latent_y[k] (z = 0)")
+    finally:
+        T.PRODUCTS[:] = []
+    return out
+
+
+GROUPS = [guard(msteps), guard(reduce_iadd), guard(handover), guard(esteps), guard(finalizers)]
 BOUNDED = [bounded("fa_repro.py", "phases", "C09.estep-acc-mstep",
                    "for each phase (V, U, D) the real E-step accumulators equal A1 = Σ N (Phi + E E'), A2 = Σ Fnorm E' of the exact posterior of that "
                    "phase's latent given the handed-over point estimates, and the M-step solves the normal equations; shapes kept"),
@@ -188,15 +421,19 @@ BOUNDED = [bounded("fa_repro.py", "phases", "C09.estep-acc-mstep",
 SHARED = [("C07", "leaf_compute_fn_y_i", ["C07.fn_y"]), ("C07", "fn_x_all", ["C07.fn_x"]), ("C07", "fn_z_all", ["C07.fn_z"]),
           ("C07", "prec_all", ["C07.prec.x", "C07.prec.y", "C07.prec.z", "C07.uprod", "C07.vprod"])]
 REPLAY = [("C09.reduce", "fa_repro.py", "dask_classes", {}), ("C09.handover", "fa_repro.py", "dask_classes", {}), ("C09.ascent", "fa_repro.py", "phase_ascent", {}), ("C09", "fa_repro.py", "phases", {})]
-LEVEL = "other"
-TECHNIQUE = "contract-based deductive verification (M-steps, reduction, phase hand-over, leaf formulas) + bounded exact-rational execution of the real E-steps (objrun)"
-LEVEL_TEXT = ("M-step formulas, accumulator reduction, phase sequencing/hand-over/copy-back and all leaf formulas are proved for all shapes. The per-class "
-              "E-step orchestration of the three phases (loops over label sets with label-indexed lists) is outside the symbolic engine and is checked by running "
-              "the real code on exact rationals over a finite grid of shapes against the exact posterior moments (bounded, not counted as proved); the ascent "
-              "clause rests on the trusted EM lemma for linear-Gaussian models plus a bounded numeric check.")
-EXPLANATION = ("M-steps, accumulator reduction, phase hand-over/copy-back and all leaf formulas are proved for all shapes (obligations/discharged). "
-               "The E-step orchestration (posterior per class/session, accumulators) and the ascent clause are checked by the bounded objrun engine "
-               "(bounded_checks). EM ascent itself rests on the trusted lemma L-EM-LG.")
+LEVEL = "proof"
+TECHNIQUE = "contract-based deductive verification (per-class E-steps of the three phases, finalisers, M-steps, reduction, phase hand-over, leaf formulas) + bounded exact-rational execution of the list-path E-steps (objrun)"
+LEVEL_TEXT = ("Proof, for all shapes, ranks, class counts and session counts, that each phase of JFAMachine.fit is an exact E-step followed by the M-step that "
+              "solves the normal equations: the per-class E-steps e_step_v / e_step_u / e_step_d return A1 = Σ N (Phi + E E'), A2 = Σ Fnorm E' of the exact "
+              "posterior of that phase's latent given the handed-over point estimates (C09.estep.*); finalize_v / finalize_u hand over the posterior means of "
+              "every class (C09.finalize.*); the per-class accumulators are each added exactly once (C09.reduce); the M-steps solve A2_c A1_c^-1 / A2/A1 "
+              "(C09.*.mstep); phases run in the stated order with the stated arguments and the result is copied back also from isolated tasks (C09.handover). "
+              "That such a step never decreases the phase's marginal likelihood is the trusted EM lemma L-EM-LG. The list path with several classes in one call "
+              "(label-indexed filtering inside the E-step) is checked against the same posterior moments by exact-rational execution on a shape grid (bounded, not "
+              "counted as proved), as is the numeric ascent.")
+EXPLANATION = ("Per-class E-steps, finalisers, M-steps, accumulator reduction, phase hand-over/copy-back and all leaf formulas are proved for all shapes "
+               "(obligations/discharged). The list-path E-step with several classes per call and the numeric ascent are bounded objrun checks (bounded_checks). "
+               "EM ascent itself rests on the trusted lemma L-EM-LG.")
 TRUSTED = ["L-EM-LG: for a linear-Gaussian latent model, an exact E-step followed by the M-step solving the normal equations never decreases the marginal likelihood",
            "np.linalg.inv contract; compound axis C*D row-major"]
 ASSUMPTIONS = ["UBM variances > 0; every class has >= 1 session"]
